@@ -18,6 +18,31 @@ fn parse_syntax(reg: &LanguageRegistry, s: &str) -> CommentSyntax {
             .comment_syntax
             .clone();
     }
+    // `cfg:` = a custom language as the configuration defines it, taken through the registry constructor
+    // (with_custom_languages_checked) exactly like `[languages.X]` tables are
+    if let Some(items) = s.strip_prefix("cfg:") {
+        let mut cfg = sloc_guard::config::CustomLanguageConfig {
+            extensions: vec!["zzv".to_string()],
+            single_line_comments: Vec::new(),
+            multi_line_comments: Vec::new(),
+        };
+        for item in items.split(';').filter(|x| !x.is_empty()) {
+            if let Some(v) = item.strip_prefix("S=") {
+                cfg.single_line_comments.push(dec(v));
+            } else if let Some(v) = item.strip_prefix("M=") {
+                let f: Vec<&str> = v.split(':').collect();
+                cfg.multi_line_comments.push((dec(f[0]), dec(f[1])));
+            }
+        }
+        let mut map = std::collections::HashMap::new();
+        map.insert("Zzv".to_string(), cfg);
+        let (custom_reg, _) = LanguageRegistry::with_custom_languages_checked(&map);
+        return custom_reg
+            .get_by_extension("zzv")
+            .expect("custom extension")
+            .comment_syntax
+            .clone();
+    }
     let mut single = Vec::new();
     let mut multi = Vec::new();
     for item in s.split(';').filter(|x| !x.is_empty()) {
